@@ -14,7 +14,7 @@ pub const NAME_POOL: &[&str] = &[
     "R00", "data", "X_", "ldx", "in_", "out1", "trap_", "putss", "z9", "L0", "L1", "L2", "msg",
     "Main", "MAIN", "end_", "brnzpx", "r10", "xg", "b2", "o", "regs", "stack_", "retss", "popp",
     "addd", "jsrrr", "x", "Y", "halt_", "LOOP", "Loop", "_1", "__", "q", "w_w", "hw", "n", "fib",
-    "ptr", "buf", "count", "tmp", "sub1", "sub2", "done", "skip", "next", "table", "zero", "one", "two",
+    "ptr", "buf", "count", "tmp", "sub1", "sub2", "done", "skip", "next", "table", "R7_SAVE", "r0_", "r3_x",
 ];
 
 #[derive(Clone, Debug, Serialize, Deserialize)]
@@ -85,6 +85,9 @@ pub fn stringz_text() -> impl Strategy<Value = String> {
             6 => (0x20u32..0x7F).prop_map(|c| char::from_u32(c).unwrap()),
             1 => prop::sample::select(vec!['\n', '\t', '\r', '\\', '"']),
             1 => prop::sample::select(vec!['é', 'ß', 'λ', '日', '€', '\u{FFFD}', '\u{A0}', '\u{7FF}', '\u{800}', '\u{FFFF}']),
+            // characters that tools like to treat specially: byte order mark, zero-width and
+            // directional marks, line / paragraph separators, non-characters, DEL, a C1 control
+            1 => prop::sample::select(vec!['\u{FEFF}', '\u{FFFE}', '\u{200B}', '\u{200E}', '\u{2028}', '\u{2029}', '\u{7F}', '\u{85}', '\u{AD}', '\u{1}']),
         ],
         0..12,
     )
